@@ -117,4 +117,4 @@ def check_case(case):
 
 def run(tier="quick", seed=0):
     return common.run("bounded.C04", cases(tier, seed), bound="3 candidates x <=2 ballots with ties (quick); <=5 x 6 random (thorough)",
-                      rule=RULE, budget_s=150 if tier == "quick" else 1200)
+                      rule=RULE, budget_s=600 if tier == "quick" else 1200)
